@@ -177,7 +177,9 @@ def classify_phase(prop, spec, ph, crashed_expected=False):
         tr = v.get('trace', '')
         benign = (cli.get('heuristic') == 'Constant' or task != 'ranking') and 'FileNotFoundError' in tr and "ranking_checkpoint_tmp.tsv" in tr and 'os.remove' in tr
         frames = [l for l in tr.split('Traceback')[-1].splitlines() if l.strip().startswith('File "')]
-        harness = bool(frames) and (os.sep + 'sim' + os.sep) in frames[-1] and (os.sep + 'outrank' + os.sep) not in frames[-1]
+        # an exception whose innermost frame is monitor / oracle code is a harness defect; the seams (sim/fs.py, sim/pool.py)
+        # pass real errors of the wrapped calls through, those belong to the code under test
+        harness = bool(frames) and any(x in frames[-1] for x in (os.sep + os.path.join('sim', 'engines') + os.sep, os.sep + os.path.join('sim', 'refmodel') + os.sep))
         if harness:
             return [], other, 'exception inside the harness: ' + tr[-800:]
         # C05/C06/C07 speak about what every mini-batch emits: an exception raised after the streaming phase
@@ -379,7 +381,7 @@ def record_run(rep, spec, v):
 
 
 def run_check(prop, args, profile, rule, signature, nontrivial, crash_mode=False, engine='pipe', family=None,
-              hashseeds_quick=(0, 1, 2, 3), hashseeds_thorough=(0, 1, 2, 3, 4, 5, 6, 7), batch=64, budget_quick=60, budget_thorough=900,
+              hashseeds_quick=(0, 1, 2, 3), hashseeds_thorough=(0, 1, 2, 3, 4, 5, 6, 7), batch=64, budget_quick=45, budget_thorough=900,
               after_round=None, assumptions=None, extra_evidence=None, rep=None, pool=None, finish=True, budget=None):
     """Generic seeded search loop for the pipe checks.
     signature(spec, value) -> hashable shape signature; nontrivial(spec, value) -> bool."""
